@@ -25,8 +25,22 @@
    __getitem__, forward_until and num_forward_until by lockstep simulation of
    Buffer.advance / Buffer.scan (any fuel not smaller than the hand-written
    one); the other methods by evaluation.  The proofs compute with the
-   generated terms, so a change of a method body that changes the generated
-   term makes the lemma named after the method fail. *)
+   generated terms, so a change of a method body that changes what the method
+   computes makes the lemma named after the method fail.
+
+   Shape-robustness: the statements are fixed equalities with the hand-written
+   model, but the scripts of __getitem__, forward_until, num_forward_until,
+   backward and peek do not follow the exact shape of the generated body.
+   They evaluate it statement by statement up to the while statement (the
+   continuation is hidden meanwhile), recognise the loop by its test
+   (gi_loop_gen: ANY test that evaluates to Buffer.bound_ok; nfu/fu_loop_gen:
+   the scanning test, accumulator and counter at ANY local index, anything
+   else in the locals carried along), replace it by the hand-written
+   advance / scan and evaluate the rest, splitting on whatever comparison or
+   list access the evaluation meets.  Named temporaries, a conditional
+   expression for an if statement, one return for two, `i = 0; c = ''` for
+   `i, c = 0, ''`, `assert a >= b` for `assert a - b >= 0` leave all lemmas
+   provable by the same scripts. *)
 From Coq Require Import List ZArith Bool Lia Arith.
 From TexModel Require Import Buffer BufDSL BufGen.
 From TexProofs Require Import BufferProofs.
@@ -180,6 +194,15 @@ Qed.
 
 Definition jval (J : option Z) : value := match J with None => VNone | Some k => VInt k end.
 
+(* The loop of __getitem__: `while <bound> : try: next(self) except StopIteration: break`.
+   The lemma is stated for ANY test expression and ANY locals such that the
+   test evaluates, without effect, to "the bound j is None or cursor <= j"
+   (Buffer.bound_ok); the proofs of the two __getitem__ lemmas find the loop in
+   the evaluated body, whatever precedes and follows it, and discharge that
+   side condition by computation.  So they hold of every equivalent way of
+   writing the method that the translator accepts (named temporaries, a
+   conditional expression for an if statement, one return for two), and still
+   fail when the body computes something else. *)
 Definition gi_cond := EOr (EIsNone (EVar 2)) (ECmp CLe (EField F_i) (EVar 2)).
 Definition gi_body := blk [STry (blk [SExpr (ECallMeth M_next (args_of []))]) StopIteration (blk [SBreak])].
 
@@ -193,14 +216,17 @@ Lemma gi_cond_eval cf a o J s :
   eval cf gi_cond [Some a; Some o; Some (jval J)] (cc s) = EV (VBool (bound_ok (cursor s) J)) (cc s).
 Proof. destruct J as [k|]; reflexivity. Qed.
 
-Lemma gi_loop n a o J : forall f2 f1 s, (f2 < f1)%nat -> wf s ->
+Lemma gi_loop_gen n cond en J :
+  (forall s, eval (call (S (S n)) gen_cls) cond en (cc s) = EV (VBool (bound_ok (cursor s) J)) (cc s)) ->
+  forall f2 f1 s, (f2 < f1)%nat -> wf s ->
   snd (advance f2 s J) <> Some OutOfFuel ->
-  while_loop (eval (call (S (S n)) gen_cls) gi_cond) (exec_block (call (S (S n)) gen_cls) gi_body) f1
-             [Some a; Some o; Some (jval J)] (cc s)
-  = xloop [Some a; Some o; Some (jval J)] (advance f2 s J).
+  while_loop (eval (call (S (S n)) gen_cls) cond) (exec_block (call (S (S n)) gen_cls) gi_body) f1
+             en (cc s)
+  = xloop en (advance f2 s J).
 Proof.
+  intros Hc.
   induction f2 as [|f2 IH]; intros f1 s Hf Hwf Hno;
-    (destruct f1 as [|f1]; [lia|]); unfold while_loop; fold while_loop; rewrite gi_cond_eval;
+    (destruct f1 as [|f1]; [lia|]); unfold while_loop; fold while_loop; rewrite Hc;
     cbn [truthy].
   - unfold advance in *. destruct (bound_ok (cursor s) J) eqn:HB.
     + exfalso. apply Hno. reflexivity.
@@ -214,60 +240,22 @@ Proof.
       try (apply IH; [lia|exact Hwf1|exact Hno]).
     destruct e; reflexivity.
 Qed.
+
+Lemma gi_loop n a o J : forall f2 f1 s, (f2 < f1)%nat -> wf s ->
+  snd (advance f2 s J) <> Some OutOfFuel ->
+  while_loop (eval (call (S (S n)) gen_cls) gi_cond) (exec_block (call (S (S n)) gen_cls) gi_body) f1
+             [Some a; Some o; Some (jval J)] (cc s)
+  = xloop [Some a; Some o; Some (jval J)] (advance f2 s J).
+Proof. apply gi_loop_gen. intros s. apply gi_cond_eval. Qed.
 Lemma loop_fuel_cc s : wf s -> (advance_fuel s < loop_fuel (cc s))%nat.
 Proof.
   unfold wf, loop_fuel, advance_fuel, cc, conc. cbn [d_q d_it d_i]. intros H.
   rewrite firstn_length_le by exact H. rewrite skipn_length. lia.
 Qed.
 
-Lemma gen_getitem_int_gen n s k : wf s ->
-  snd (advance (advance_fuel s) s (Some k)) <> Some OutOfFuel ->
-  call (S (S (S n))) gen_cls (CMeth M_getitem) [VInt k] (cc s) = done (getitem_int s k).
-Proof.
-  intros Hwf Hno. rewrite call_S. unfold call_body.
-  cbn [gen_cls c_meth gen_meth gen_getitem m_params m_body bind_params option_map].
-  cbn [blk exec_block exec_stmt eval eval_args args_of lookup nth_error truthy get_field lift_v set_vars set_var].
-  rewrite d_i_cc.
-  change (EOr (EIsNone (EVar 2)) (ECmp CLe (EField F_i) (EVar 2))) with gi_cond.
-  change (BCons (STry (BCons (SExpr (ECallMeth M_next ANil)) BNil) StopIteration (BCons SBreak BNil)) BNil) with gi_body.
-  change (VInt k) with (jval (Some k)) at 2.
-  rewrite (gi_loop n (VInt k) (VInt (cursor s)) (Some k) (advance_fuel s));
-    [| apply loop_fuel_cc; exact Hwf | exact Hwf | exact Hno].
-  unfold getitem_int, done, xloop.
-  destruct (advance (advance_fuel s) s (Some k)) as [s1 r]. cbn [fst snd] in *.
-  destruct r as [e|]; [reflexivity|].
-  cbn [blk exec_block exec_stmt eval eval_args args_of lookup nth_error truthy get_field set_field lift_v].
-  rewrite cc_set_i.
-  cbn [blk exec_block exec_stmt eval eval_args args_of lookup nth_error truthy get_field set_field lift_v lift_rv py_getitem jval].
-  rewrite d_q_cc. cbn [fst snd finish].
-  destruct (py_index (queue (set_cursor s1 (cursor s))) k); reflexivity.
-Qed.
 Lemma join_call n c l d : call (S n) c (CFn FTokenJoin) [VList l] d = ODone d (RVal (VStr l)).
 Proof. reflexivity. Qed.
 
-Lemma gen_getitem_slice_gen n s lo hi : wf s ->
-  snd (advance (advance_fuel s) s hi) <> Some OutOfFuel ->
-  call (S (S (S n))) gen_cls (CMeth M_getitem) [VSlice lo hi] (cc s) = done (getitem_slice s lo hi).
-Proof.
-  intros Hwf Hno. rewrite call_S. unfold call_body.
-  cbn [gen_cls c_meth gen_meth gen_getitem m_params m_body bind_params option_map].
-  cbn [blk exec_block exec_stmt eval eval_args args_of lookup nth_error truthy get_field lift_v lift_rv set_vars set_var py_stop].
-  rewrite d_i_cc.
-  change (EOr (EIsNone (EVar 2)) (ECmp CLe (EField F_i) (EVar 2))) with gi_cond.
-  change (BCons (STry (BCons (SExpr (ECallMeth M_next ANil)) BNil) StopIteration (BCons SBreak BNil)) BNil) with gi_body.
-  assert (Hstop : lift_rv (match hi with Some h => Some (RVal (VInt h)) | None => Some (RVal VNone) end) (cc s)
-                  = EV (jval hi) (cc s)) by (destruct hi; reflexivity).
-  rewrite Hstop. cbn [set_vars set_var].
-  rewrite (gi_loop n (VSlice lo hi) (VInt (cursor s)) hi (advance_fuel s));
-    [| apply loop_fuel_cc; exact Hwf | exact Hwf | exact Hno].
-  unfold getitem_slice, done, xloop.
-  destruct (advance (advance_fuel s) s hi) as [s1 r]. cbn [fst snd] in *.
-  destruct r as [e|]; [reflexivity|].
-  cbn [blk exec_block exec_stmt eval eval_args args_of lookup nth_error truthy get_field set_field lift_v].
-  rewrite cc_set_i.
-  cbn [blk exec_block exec_stmt eval eval_args args_of lookup nth_error truthy get_field set_field lift_v lift_rv py_getitem jval].
-  rewrite d_q_cc, d_join_cc. unfold fj. rewrite join_call. reflexivity.
-Qed.
 Ltac ev :=
   cbn [blk exec_block exec_stmt eval eval_args args_of lookup nth_error BufDSL.truthy get_field
        set_field lift_v lift_rv py_getitem py_stop py_add py_sub py_cmp py_eq py_len py_token
@@ -277,6 +265,96 @@ Ltac ev :=
        gen_num_forward_until gen_forward_until gen_backward gen_peek gen_next gen_getitem
        gen_iter gen_position].
 
+Lemma exec_while cf c b en d :
+  exec_stmt cf (SWhile c b) en d = while_loop (eval cf c) (exec_block cf b) (loop_fuel d) en d.
+Proof. reflexivity. Qed.
+
+(* a statement list as its first statement and the continuation *)
+Definition seq (x : xres) (k : env -> dstate -> xres) : xres :=
+  match x with
+  | XNormal en d => k en d
+  | y => y
+  end.
+
+Lemma exec_block_cons cf st b en d :
+  exec_block cf (BCons st b) en d = seq (exec_stmt cf st en d) (exec_block cf b).
+Proof.
+  change (exec_block cf (BCons st b) en d)
+    with (match exec_stmt cf st en d with XNormal en' d' => exec_block cf b en' d' | x => x end).
+  unfold seq. destruct (exec_stmt cf st en d); reflexivity.
+Qed.
+
+(* enter the method and evaluate, statement by statement, what precedes its
+   while statement (the continuation is hidden meanwhile, so that the test and
+   the body of the loop stay syntactically visible) *)
+Ltac gi_prefix :=
+  repeat match goal with
+  | |- context [exec_block ?cf (BCons (SWhile ?c ?b) ?rest) ?en ?d] => fail 1
+  | |- context [exec_block ?cf (BCons ?st ?rest) ?en ?d] =>
+    rewrite (exec_block_cons cf st rest en d);
+    let K := fresh "K" in let HK := fresh "HK" in
+    remember (exec_block cf rest) as K eqn:HK; ev; cbn [seq]; subst K
+  end.
+
+Ltac gi_enter :=
+  rewrite call_S; unfold call_body;
+  cbn [gen_cls c_meth gen_meth gen_getitem m_params m_body bind_params option_map blk];
+  gi_prefix; rewrite ?d_i_cc.
+
+(* replace the loop of __getitem__ by the hand-written `advance` (gi_loop_gen;
+   J is the bound the caller passed); K names the statements after the loop *)
+Ltac gi_find_loop n s J Hwf Hno K HK :=
+  match goal with
+  | |- context [exec_block ?cf (BCons (SWhile ?c ?b) ?rest) ?en (cc s)] =>
+    rewrite (exec_block_cons cf (SWhile c b) rest en (cc s)), exec_while;
+    remember (exec_block cf rest) as K eqn:HK;
+    change b with gi_body;
+    rewrite (gi_loop_gen n c en J (fun s' => eq_refl) (advance_fuel s) (loop_fuel (cc s)) s);
+    [| apply loop_fuel_cc; exact Hwf | exact Hwf | exact Hno]
+  end.
+
+(* evaluate what follows the loop *)
+Ltac gi_tail :=
+  repeat first
+  [ reflexivity
+  | progress cbn [seq]
+  | progress ev
+  | rewrite cc_set_i
+  | rewrite d_q_cc
+  | rewrite d_i_cc
+  | rewrite d_join_cc; unfold fj
+  | rewrite join_call
+  | match goal with |- context [py_index ?l ?k] => destruct (py_index l k) end ].
+
+Lemma gen_getitem_int_gen n s k : wf s ->
+  snd (advance (advance_fuel s) s (Some k)) <> Some OutOfFuel ->
+  call (S (S (S n))) gen_cls (CMeth M_getitem) [VInt k] (cc s) = done (getitem_int s k).
+Proof.
+  intros Hwf Hno. gi_enter.
+  gi_find_loop n s (Some k) Hwf Hno K HK.
+  unfold getitem_int, done, xloop.
+  destruct (advance (advance_fuel s) s (Some k)) as [s1 r]. cbn [fst snd seq] in *.
+  destruct r as [e|]; [reflexivity|].
+  subst K. gi_tail.
+Qed.
+
+Lemma gen_getitem_slice_gen n s lo hi : wf s ->
+  snd (advance (advance_fuel s) s hi) <> Some OutOfFuel ->
+  call (S (S (S n))) gen_cls (CMeth M_getitem) [VSlice lo hi] (cc s) = done (getitem_slice s lo hi).
+Proof.
+  intros Hwf Hno.
+  destruct hi as [h|]; gi_enter.
+  - gi_find_loop n s (Some h) Hwf Hno K HK.
+    unfold getitem_slice, done, xloop.
+    destruct (advance (advance_fuel s) s (Some h)) as [s1 r]. cbn [fst snd seq] in *.
+    destruct r as [e|]; [reflexivity|].
+    subst K. gi_tail.
+  - gi_find_loop n s (@None Z) Hwf Hno K HK.
+    unfold getitem_slice, done, xloop.
+    destruct (advance (advance_fuel s) s None) as [s1 r]. cbn [fst snd seq] in *.
+    destruct r as [e|]; [reflexivity|].
+    subst K. gi_tail.
+Qed.
 Ltac enter := rewrite call_S; unfold call_body; ev.
 
 Lemma advance_no_fuel s J : Pre s -> snd (advance (advance_fuel s) s J) <> Some OutOfFuel.
@@ -335,7 +413,8 @@ Lemma tup1 a b : py_index [a; b] 1 = OItem b. Proof. reflexivity. Qed.
 Lemma gen_peek_range_ok n s a b : Pre s ->
   call (S (S (S (S n)))) gen_cls (CMeth M_peek) [VTup [a; b]] (cc s) = done (peek_range s a b).
 Proof.
-  intros H. enter. rewrite d_i_cc, tup0. ev. rewrite tup1. ev. rewrite ?d_i_cc. rewrite gen_getitem_slice_ok by exact H.
+  intros H. enter. repeat first [progress ev | rewrite tup0 | rewrite tup1 | rewrite d_i_cc].
+  rewrite gen_getitem_slice_ok by exact H.
   unfold peek_range, done.
   destruct (getitem_slice s (Some (cursor s + a)) (Some (cursor s + b))) as [s1 o]. cbn [fst snd].
   destruct o as [x| |l|b0|z|e]; try reflexivity. destruct e; reflexivity.
@@ -389,18 +468,24 @@ Proof.
   destruct o as [x| |l|b|z|e]; reflexivity.
 Qed.
 
+(* split on an integer comparison the evaluation is stuck on, keeping only the
+   case(s) consistent with the hypotheses (so `assert a - b >= 0` and
+   `assert a >= b` are the same to the proofs) *)
+Ltac split_cmp :=
+  match goal with
+  | |- context [Z.leb ?a ?b] => destruct (Z.leb_spec a b); try (exfalso; lia)
+  | |- context [Z.ltb ?a ?b] => destruct (Z.ltb_spec a b); try (exfalso; lia)
+  end.
+
 Lemma gen_backward_nonneg n s j : Pre s -> 0 <= j ->
   call (S (S (S (S n)))) gen_cls (CMeth M_backward) [VInt j] (cc s) = done (backward_pos s j).
 Proof.
   intros H Hj. enter.
   assert (E : (j <? 0) = false) by (apply Z.ltb_ge; lia). rewrite E. ev.
   rewrite !d_i_cc. unfold backward_pos.
-  destruct (cursor s - j <? 0) eqn:E2.
-  - assert (E3 : (0 <=? cursor s - j) = false) by (apply Z.leb_gt; apply Z.ltb_lt in E2; lia).
-    rewrite E3. reflexivity.
-  - apply Z.ltb_ge in E2.
-    assert (E3 : (0 <=? cursor s - j) = true) by (apply Z.leb_le; lia). rewrite E3. ev.
-    rewrite cc_set_i. ev. rewrite !d_i_cc.
+  destruct (cursor s - j <? 0) eqn:E2; [apply Z.ltb_lt in E2 | apply Z.ltb_ge in E2].
+  - repeat first [reflexivity | progress ev | split_cmp].
+  - repeat first [progress ev | split_cmp | rewrite cc_set_i | rewrite d_i_cc].
     rewrite gen_getitem_slice_ok by (apply set_cursor_Pre; [exact H|lia]).
     unfold done. cbv zeta.
     destruct (getitem_slice (set_cursor s (cursor s - j))
@@ -520,6 +605,19 @@ Proof. reflexivity. Qed.
 Lemma gen_init_ok n l :
   call (S n) gen_cls (CMeth M_init) [VIterable l] blank = ODone (cc (init_state l)) (RVal VNone).
 Proof. reflexivity. Qed.
+
+(* Buffer(b) for ANOTHER Buffer b (how every token-backed buffer is made:
+   Buffer(tokenize(..)) wraps the Buffer that to_buffer returns): the new buffer
+   holds what b has not yet consumed -- the items of b from its cursor on,
+   INCLUDING those b has already pulled into its look-ahead queue *)
+Lemma gen_init_buffer_ok n s : Pre s ->
+  call (S n) gen_cls (CMeth M_init) [buf_arg s] blank
+  = ODone (cc (init_state (skipn (Z.to_nat (cursor s)) (items s)))) (RVal VNone).
+Proof.
+  intros [Hi Hq]. rewrite call_S. unfold call_body, buf_arg.
+  assert (E : (0 <=? cursor s) = true) by (apply Z.leb_le; exact Hi).
+  repeat first [reflexivity | progress ev | rewrite E | rewrite firstn_skipn].
+Qed.
 (* ------------------------------------------------- the scanning loops *)
 
 Lemma py_index_shape l k :
@@ -633,30 +731,114 @@ Proof.
   - rewrite (cond_call _ k VNone _ (pred_none k)) by reflexivity. reflexivity.
   - reflexivity.
 Qed.
-Definition nfu_body :=
-  blk [SAugVar 2 AugAdd (ECallMeth M_forward (args_of [EInt 1])); SAugVar 1 AugAdd (EInt 1)].
-
 Definition scan_exn (r : state * option exn * list Z * Z) : option exn := snd (fst (fst r)).
 
-Lemma nfu_loop n k : forall f2 f1 s acc cnt, (f2 <= f1)%nat -> Pre s ->
+(* ---- locals: the loops below are proved for ANY local-variable layout.  The
+   accumulator (and the counter) may have any index; whatever else the locals
+   hold is carried along. *)
+
+Lemma lookup_cons a en x : lookup (a :: en) (S x) = lookup en x.
+Proof. reflexivity. Qed.
+
+Lemma lookup_nil x : lookup [] x = None.
+Proof. destruct x; reflexivity. Qed.
+
+Lemma lookup_set_same x : forall en v, lookup (set_var en x v) x = Some v.
+Proof.
+  induction x as [|x IH]; intros [|a r] v; cbn [set_var]; try reflexivity;
+    rewrite lookup_cons; apply IH.
+Qed.
+
+Lemma lookup_set_other x : forall en y v, x <> y -> lookup (set_var en x v) y = lookup en y.
+Proof.
+  induction x as [|x IH]; intros [|a r] [|y] v Hne; cbn [set_var]; try congruence; try reflexivity.
+  - rewrite lookup_cons, !lookup_nil. reflexivity.
+  - rewrite !lookup_cons, lookup_nil. rewrite IH by congruence. apply lookup_nil.
+  - rewrite !lookup_cons. apply IH. congruence.
+Qed.
+
+Lemma set_set x : forall en v w, set_var (set_var en x v) x w = set_var en x w.
+Proof.
+  induction x as [|x IH]; intros [|a r] v w; cbn [set_var]; try reflexivity; f_equal; apply IH.
+Qed.
+
+Lemma set_same x : forall en v, lookup en x = Some v -> set_var en x v = en.
+Proof.
+  induction x as [|x IH]; intros [|a r] v H; cbn [set_var].
+  - discriminate H.
+  - unfold lookup in H. cbn in H. destruct a as [a|]; [|discriminate]. congruence.
+  - rewrite lookup_nil in H. discriminate.
+  - rewrite lookup_cons in H. f_equal. apply IH. exact H.
+Qed.
+
+Lemma set_comm x : forall en y v w, x <> y ->
+  set_var (set_var en x v) y w = set_var (set_var en y w) x v.
+Proof.
+  induction x as [|x IH]; intros [|a r] [|y] v w Hne; cbn [set_var]; try congruence; try reflexivity;
+    f_equal; apply IH; congruence.
+Qed.
+
+Lemma set2_same en x y v w : lookup en x = Some v -> lookup en y = Some w ->
+  set_var (set_var en x v) y w = en.
+Proof. intros Hx Hy. rewrite (set_same x en v Hx). apply set_same. exact Hy. Qed.
+
+Lemma set4 en x y a c a' c' : x <> y ->
+  set_var (set_var (set_var (set_var en x a) y c) x a') y c' = set_var (set_var en x a') y c'.
+Proof.
+  intros Hne. rewrite (set_comm y (set_var en x a) x c a') by congruence.
+  rewrite set_set, set_set. reflexivity.
+Qed.
+
+Lemma env_shape1 en a : lookup en 0 = Some a -> exists rest, en = Some a :: rest.
+Proof.
+  destruct en as [|[v|] rest]; unfold lookup; cbn; intros H; try discriminate.
+  exists rest. congruence.
+Qed.
+
+Lemma env_shape2 en a b : lookup en 0 = Some a -> lookup en 1 = Some b ->
+  exists rest, en = Some a :: Some b :: rest.
+Proof.
+  intros H0 H1. destruct (env_shape1 en a H0) as [r ->]. rewrite lookup_cons in H1.
+  destruct (env_shape1 r b H1) as [r' ->]. exists r'. reflexivity.
+Qed.
+
+Lemma nfu_cond_eval_gen n k en s : lookup en 0 = Some (VFn (FCond k)) -> Pre s ->
+  eval (call (S (S (S (S (S n))))) gen_cls) nfu_cond en (cc s) = scan_test k s.
+Proof. intros H0 HP. destruct (env_shape1 en _ H0) as [r ->]. apply nfu_cond_eval. exact HP. Qed.
+
+Lemma fu_cond_eval_gen n k en s :
+  lookup en 0 = Some (VFn (FCond k)) -> lookup en 1 = Some (VBool true) -> Pre s ->
+  eval (call (S (S (S (S (S n))))) gen_cls) fu_cond en (cc s) = scan_test k s.
+Proof. intros H0 H1 HP. destruct (env_shape2 en _ _ H0 H1) as [r ->]. apply fu_cond_eval. exact HP. Qed.
+
+(* ---- the scanning loops, for any index of the accumulator / counter *)
+
+Definition fwd1 : expr := ECallMeth M_forward (args_of [EInt 1]).
+Definition nfu_body_at (xa xc : nat) : block := blk [SAugVar xa AugAdd fwd1; SAugVar xc AugAdd (EInt 1)].
+Definition fu_body_at (xa : nat) : block := blk [SAugVar xa AugAdd fwd1].
+
+Lemma nfu_loop_gen n k xa xc : (1 <= xa)%nat -> (1 <= xc)%nat -> xa <> xc ->
+  forall f2 f1 s en acc cnt, (f2 <= f1)%nat -> Pre s ->
+  lookup en 0 = Some (VFn (FCond k)) -> lookup en xa = Some (VStr acc) ->
+  lookup en xc = Some (VInt cnt) ->
   scan_exn (scan f2 s k acc cnt) <> Some OutOfFuel ->
   while_loop (eval (call (S (S (S (S (S n))))) gen_cls) nfu_cond)
-             (exec_block (call (S (S (S (S (S n))))) gen_cls) nfu_body) f1
-             [Some (VFn (FCond k)); Some (VInt cnt); Some (VStr acc)] (cc s)
+             (exec_block (call (S (S (S (S (S n))))) gen_cls) (nfu_body_at xa xc)) f1 en (cc s)
   = match scan f2 s k acc cnt with
     | (s', Some e, _, _) => XExc e (cc s')
     | (s', None, acc', cnt') =>
-      XNormal [Some (VFn (FCond k)); Some (VInt cnt'); Some (VStr acc')] (cc s')
+      XNormal (set_var (set_var en xa (VStr acc')) xc (VInt cnt')) (cc s')
     end.
 Proof.
-  induction f2 as [|f2 IH]; intros f1 s acc cnt Hf HP Hno.
+  intros Hxa Hxc Hne.
+  induction f2 as [|f2 IH]; intros f1 s en acc cnt Hf HP H0 Ha Hc Hno.
   - exfalso. apply Hno. reflexivity.
   - destruct f1 as [|f1]; [lia|]. unfold while_loop; fold while_loop.
-    rewrite nfu_cond_eval by exact HP. rewrite scan_S in *. unfold scan_test.
+    rewrite (nfu_cond_eval_gen n k en s H0 HP). rewrite scan_S in *. unfold scan_test.
     pose proof (has_next_shape s 1) as Hsh. pose proof (has_next_Pre s 1 HP) as HP1.
     destruct (has_next s 1) as [s1 o]. cbn [fst snd] in *.
     destruct o as [x| |l|b|z|e]; try contradiction; [|reflexivity].
-    destruct b; [|reflexivity].
+    destruct b; [|cbn [BufDSL.truthy]; rewrite (set2_same en xa xc _ _ Ha Hc); reflexivity].
     pose proof (peek_int_shape s1 0) as Hsh2. pose proof (peek_int_Pre s1 0 HP1) as HP2.
     destruct (peek_int s1 0) as [s2 pk]. cbn [fst snd] in *.
     assert (Hbody : forall pk', scan_exn (if cond_holds k pk' then (s2, None, acc, cnt)
@@ -667,14 +849,13 @@ Proof.
                            end) <> Some OutOfFuel ->
       match BufDSL.truthy (VBool (negb (cond_holds k pk'))) with
       | Some true =>
-        match exec_block (call (S (S (S (S (S n))))) gen_cls) nfu_body
-                [Some (VFn (FCond k)); Some (VInt cnt); Some (VStr acc)] (cc s2) with
+        match exec_block (call (S (S (S (S (S n))))) gen_cls) (nfu_body_at xa xc) en (cc s2) with
         | XNormal en2 d2 => while_loop (eval (call (S (S (S (S (S n))))) gen_cls) nfu_cond)
-             (exec_block (call (S (S (S (S (S n))))) gen_cls) nfu_body) f1 en2 d2
+             (exec_block (call (S (S (S (S (S n))))) gen_cls) (nfu_body_at xa xc)) f1 en2 d2
         | XBreak en2 d2 => XNormal en2 d2
         | x => x
         end
-      | Some false => XNormal [Some (VFn (FCond k)); Some (VInt cnt); Some (VStr acc)] (cc s2)
+      | Some false => XNormal en (cc s2)
       | None => XUnsup
       end =
       match (if cond_holds k pk' then (s2, None, acc, cnt)
@@ -685,42 +866,53 @@ Proof.
                   end) with
       | (s', Some e, _, _) => XExc e (cc s')
       | (s', None, acc', cnt') =>
-        XNormal [Some (VFn (FCond k)); Some (VInt cnt'); Some (VStr acc')] (cc s')
+        XNormal (set_var (set_var en xa (VStr acc')) xc (VInt cnt')) (cc s')
       end).
-    { intros pk' Hno'. destruct (cond_holds k pk'); [reflexivity|].
-      cbn [negb BufDSL.truthy]. unfold nfu_body. ev.
-      rewrite gen_forward_ok by exact HP2. unfold done.
-      pose proof (forward_shape s2 1) as Hsh3. pose proof (forward_Pre s2 1 HP2) as HP3.
-      destruct (forward s2 1) as [s3 o3]. cbn [fst snd] in *.
-      destruct o3 as [x| |l|b|z|e]; try contradiction; ev; [|reflexivity].
-      apply IH; [lia|exact HP3|exact Hno']. }
+    { intros pk' Hno'. destruct (cond_holds k pk').
+      - cbn [negb BufDSL.truthy]. rewrite (set2_same en xa xc _ _ Ha Hc). reflexivity.
+      - cbn [negb BufDSL.truthy].
+        change (exec_block (call (S (S (S (S (S n))))) gen_cls) (nfu_body_at xa xc) en (cc s2))
+          with (exec_block (call (S (S (S (S (S n))))) gen_cls)
+                  (blk [SAugVar xa AugAdd fwd1; SAugVar xc AugAdd (EInt 1)]) en (cc s2)).
+        unfold fwd1 at 1. ev. rewrite Ha. ev.
+        rewrite gen_forward_ok by exact HP2. unfold done.
+        pose proof (forward_shape s2 1) as Hsh3. pose proof (forward_Pre s2 1 HP2) as HP3.
+        destruct (forward s2 1) as [s3 o3]. cbn [fst snd] in *.
+        destruct o3 as [x| |l|b|z|e]; try contradiction; ev; [|reflexivity].
+        rewrite (lookup_set_other xa en xc) by exact Hne. rewrite Hc. ev.
+        rewrite (IH f1 s3 _ (acc ++ l) (cnt + 1)); try assumption; try lia.
+        + destruct (scan f2 s3 k (acc ++ l) (cnt + 1)) as [[[s' oe] acc'] cnt'].
+          destruct oe as [e|]; [reflexivity|]. rewrite set4 by exact Hne. reflexivity.
+        + rewrite !lookup_set_other by lia. exact H0.
+        + rewrite (lookup_set_other xc) by congruence. apply lookup_set_same.
+        + apply lookup_set_same. }
     destruct pk as [x| |l|b|z|e]; try contradiction.
     + apply Hbody. exact Hno.
     + apply Hbody. exact Hno.
     + reflexivity.
 Qed.
 
-Definition fu_body := blk [SAugVar 3 AugAdd (ECallMeth M_forward (args_of [EInt 1]))].
-
-Lemma fu_loop n k first : forall f2 f1 s acc cnt, (f2 <= f1)%nat -> Pre s ->
+Lemma fu_loop_gen n k xa : (2 <= xa)%nat ->
+  forall f2 f1 s en acc cnt, (f2 <= f1)%nat -> Pre s ->
+  lookup en 0 = Some (VFn (FCond k)) -> lookup en 1 = Some (VBool true) ->
+  lookup en xa = Some (VStr acc) ->
   scan_exn (scan f2 s k acc cnt) <> Some OutOfFuel ->
   while_loop (eval (call (S (S (S (S (S n))))) gen_cls) fu_cond)
-             (exec_block (call (S (S (S (S (S n))))) gen_cls) fu_body) f1
-             [Some (VFn (FCond k)); Some (VBool true); Some first; Some (VStr acc)] (cc s)
+             (exec_block (call (S (S (S (S (S n))))) gen_cls) (fu_body_at xa)) f1 en (cc s)
   = match scan f2 s k acc cnt with
     | (s', Some e, _, _) => XExc e (cc s')
-    | (s', None, acc', cnt') =>
-      XNormal [Some (VFn (FCond k)); Some (VBool true); Some first; Some (VStr acc')] (cc s')
+    | (s', None, acc', _) => XNormal (set_var en xa (VStr acc')) (cc s')
     end.
 Proof.
-  induction f2 as [|f2 IH]; intros f1 s acc cnt Hf HP Hno.
+  intros Hxa.
+  induction f2 as [|f2 IH]; intros f1 s en acc cnt Hf HP H0 H1 Ha Hno.
   - exfalso. apply Hno. reflexivity.
   - destruct f1 as [|f1]; [lia|]. unfold while_loop; fold while_loop.
-    rewrite fu_cond_eval by exact HP. rewrite scan_S in *. unfold scan_test.
+    rewrite (fu_cond_eval_gen n k en s H0 H1 HP). rewrite scan_S in *. unfold scan_test.
     pose proof (has_next_shape s 1) as Hsh. pose proof (has_next_Pre s 1 HP) as HP1.
     destruct (has_next s 1) as [s1 o]. cbn [fst snd] in *.
     destruct o as [x| |l|b|z|e]; try contradiction; [|reflexivity].
-    destruct b; [|reflexivity].
+    destruct b; [|cbn [BufDSL.truthy]; rewrite (set_same xa en _ Ha); reflexivity].
     pose proof (peek_int_shape s1 0) as Hsh2. pose proof (peek_int_Pre s1 0 HP1) as HP2.
     destruct (peek_int s1 0) as [s2 pk]. cbn [fst snd] in *.
     assert (Hbody : forall pk', scan_exn (if cond_holds k pk' then (s2, None, acc, cnt)
@@ -731,14 +923,13 @@ Proof.
                            end) <> Some OutOfFuel ->
       match BufDSL.truthy (VBool (negb (cond_holds k pk'))) with
       | Some true =>
-        match exec_block (call (S (S (S (S (S n))))) gen_cls) fu_body
-                [Some (VFn (FCond k)); Some (VBool true); Some first; Some (VStr acc)] (cc s2) with
+        match exec_block (call (S (S (S (S (S n))))) gen_cls) (fu_body_at xa) en (cc s2) with
         | XNormal en2 d2 => while_loop (eval (call (S (S (S (S (S n))))) gen_cls) fu_cond)
-             (exec_block (call (S (S (S (S (S n))))) gen_cls) fu_body) f1 en2 d2
+             (exec_block (call (S (S (S (S (S n))))) gen_cls) (fu_body_at xa)) f1 en2 d2
         | XBreak en2 d2 => XNormal en2 d2
         | x => x
         end
-      | Some false => XNormal [Some (VFn (FCond k)); Some (VBool true); Some first; Some (VStr acc)] (cc s2)
+      | Some false => XNormal en (cc s2)
       | None => XUnsup
       end =
       match (if cond_holds k pk' then (s2, None, acc, cnt)
@@ -748,21 +939,31 @@ Proof.
                   | (s3, _) => (s3, Some AttributeError, acc, cnt)
                   end) with
       | (s', Some e, _, _) => XExc e (cc s')
-      | (s', None, acc', cnt') =>
-        XNormal [Some (VFn (FCond k)); Some (VBool true); Some first; Some (VStr acc')] (cc s')
+      | (s', None, acc', _) => XNormal (set_var en xa (VStr acc')) (cc s')
       end).
-    { intros pk' Hno'. destruct (cond_holds k pk'); [reflexivity|].
-      cbn [negb BufDSL.truthy]. unfold fu_body. ev.
-      rewrite gen_forward_ok by exact HP2. unfold done.
-      pose proof (forward_shape s2 1) as Hsh3. pose proof (forward_Pre s2 1 HP2) as HP3.
-      destruct (forward s2 1) as [s3 o3]. cbn [fst snd] in *.
-      destruct o3 as [x| |l|b|z|e]; try contradiction; ev; [|reflexivity].
-      apply IH; [lia|exact HP3|exact Hno']. }
+    { intros pk' Hno'. destruct (cond_holds k pk').
+      - cbn [negb BufDSL.truthy]. rewrite (set_same xa en _ Ha). reflexivity.
+      - cbn [negb BufDSL.truthy].
+        change (exec_block (call (S (S (S (S (S n))))) gen_cls) (fu_body_at xa) en (cc s2))
+          with (exec_block (call (S (S (S (S (S n))))) gen_cls)
+                  (blk [SAugVar xa AugAdd fwd1]) en (cc s2)).
+        unfold fwd1 at 1. ev. rewrite Ha. ev.
+        rewrite gen_forward_ok by exact HP2. unfold done.
+        pose proof (forward_shape s2 1) as Hsh3. pose proof (forward_Pre s2 1 HP2) as HP3.
+        destruct (forward s2 1) as [s3 o3]. cbn [fst snd] in *.
+        destruct o3 as [x| |l|b|z|e]; try contradiction; ev; [|reflexivity].
+        rewrite (IH f1 s3 _ (acc ++ l) (cnt + 1)); try assumption; try lia.
+        + destruct (scan f2 s3 k (acc ++ l) (cnt + 1)) as [[[s' oe] acc'] cnt'].
+          destruct oe as [e|]; [reflexivity|]. rewrite set_set. reflexivity.
+        + rewrite lookup_set_other by lia. exact H0.
+        + rewrite lookup_set_other by lia. exact H1.
+        + apply lookup_set_same. }
     destruct pk as [x| |l|b|z|e]; try contradiction.
     + apply Hbody. exact Hno.
     + apply Hbody. exact Hno.
     + reflexivity.
 Qed.
+
 Lemma scan_fuel_cc s : Pre s -> (scan_fuel s <= loop_fuel (cc s))%nat.
 Proof.
   unfold Pre, loop_fuel, scan_fuel, cc, conc. cbn [d_q d_it d_i]. intros [_ H].
@@ -803,27 +1004,14 @@ Proof.
   destruct b; [exact Hrest|exact HP1].
 Qed.
 
-Lemma gen_num_forward_until_gen n s k : Pre s ->
-  scan_exn (scan (scan_fuel s) s k [] 0) <> Some OutOfFuel ->
-  call (S (S (S (S (S (S n)))))) gen_cls (CMeth M_num_forward_until) [VFn (FCond k)] (cc s)
-  = done (num_forward_until s k).
-Proof.
-  intros HP Hno. enter.
-  change (EAnd (ECallMeth M_hasNext ANil)
-            (ENot (ECallVal (EVar 0) (ACons (ECallMeth M_peek ANil) ANil)))) with nfu_cond.
-  change (BCons (SAugVar 2 AugAdd (ECallMeth M_forward (ACons (EInt 1) ANil)))
-            (BCons (SAugVar 1 AugAdd (EInt 1)) BNil)) with nfu_body.
-  rewrite (nfu_loop n k (scan_fuel s)); [| apply scan_fuel_cc; exact HP | exact HP | exact Hno].
-  unfold num_forward_until, done.
-  pose proof (scan_Pre k (scan_fuel s) s [] 0 HP) as HP1.
-  destruct (scan (scan_fuel s) s k [] 0) as [[[s1 oe] acc] cnt]. cbn [fst snd] in *.
-  destruct oe as [e|]; [reflexivity|]. ev.
-  rewrite gen_backward_ok by exact HP1. unfold done.
-  pose proof (backward_shape s1 cnt) as Hsh.
-  destruct (backward s1 cnt) as [s2 o]. cbn [fst snd] in *.
-  destruct o as [x| |l|b|z|e]; try contradiction; ev; [|reflexivity].
-  destruct (list_eqb l acc); reflexivity.
-Qed.
+(* ---- the two scanning methods.  The proofs evaluate the body statement by
+   statement up to its while statement (whatever the statements before it are
+   called and however many there are), recognise the loop by its test and the
+   shape of its body (the accumulator / counter may be any local), replace it
+   by the hand-written scan (nfu_loop_gen / fu_loop_gen) and evaluate the
+   rest.  They hold of every equivalent way of writing the methods that the
+   translator accepts and that keeps the loop, and fail when something else is
+   computed. *)
 
 Lemma empty_lam n d : call (S n) gen_cls (CFn (FLam 0)) [] d = ODone d (RVal (VStr [])).
 Proof. reflexivity. Qed.
@@ -832,33 +1020,102 @@ Lemma init_lam_str n l v d : (v = VPos \/ exists z, v = VInt z) ->
   call (S n) gen_cls (CFn (FLam 1)) [VStr l; v] d = ODone d (RVal (VStr l)).
 Proof. intros [->|[z ->]]; reflexivity. Qed.
 
+(* take the first statement off the block in the goal; K names the rest *)
+Ltac peel K HK :=
+  match goal with
+  | |- context [exec_block ?cf (BCons (SWhile ?c ?b) ?rest) ?en ?d] => fail 1
+  | |- context [exec_block ?cf (BCons ?st ?rest) ?en ?d] =>
+    rewrite (exec_block_cons cf st rest en d);
+    remember (exec_block cf rest) as K eqn:HK
+  end.
+
+(* one step of evaluating a statement that reads the attributes / calls the
+   default function attributes / peeks *)
+Ltac scan_step :=
+  first
+  [ reflexivity
+  | progress cbn [seq]
+  | progress ev
+  | rewrite d_init_cc; unfold fi
+  | rewrite d_empty_cc; unfold fe
+  | rewrite d_i_cc
+  | rewrite empty_lam
+  | rewrite init_lam_str by (first [left; reflexivity | right; eexists; reflexivity])
+  | match goal with
+    | HP : Pre ?s |- context [call _ gen_cls (CMeth M_peek) [] (cc ?s)] =>
+      rewrite gen_peek_default by exact HP; unfold done;
+      let Hsh := fresh "Hsh" in let HP0 := fresh "HP" in
+      let s0 := fresh "s" in let first := fresh "first" in
+      pose proof (peek_int_shape s 0) as Hsh; pose proof (peek_int_Pre s 0 HP) as HP0;
+      destruct (peek_int s 0) as [s0 first]; cbn [fst snd] in *;
+      destruct first; try contradiction
+    end ].
+
+Ltac scan_prefix :=
+  repeat (let K := fresh "K" in let HK := fresh "HK" in peel K HK; repeat scan_step; subst K).
+
+Lemma gen_num_forward_until_gen n s k : Pre s ->
+  scan_exn (scan (scan_fuel s) s k [] 0) <> Some OutOfFuel ->
+  call (S (S (S (S (S (S n)))))) gen_cls (CMeth M_num_forward_until) [VFn (FCond k)] (cc s)
+  = done (num_forward_until s k).
+Proof.
+  intros HP Hno. rewrite call_S. unfold call_body.
+  cbn [gen_cls c_meth gen_meth gen_num_forward_until m_params m_body bind_params option_map blk].
+  unfold num_forward_until, done.
+  scan_prefix.
+  match goal with
+  | |- context [exec_block ?cf (BCons (SWhile ?c (BCons (SAugVar ?xa AugAdd ?e)
+                                 (BCons (SAugVar ?xc AugAdd (EInt 1)) BNil))) ?rest) ?en (cc s)] =>
+    rewrite (exec_block_cons cf (SWhile c (BCons (SAugVar xa AugAdd e)
+               (BCons (SAugVar xc AugAdd (EInt 1)) BNil))) rest en (cc s)), exec_while;
+    remember (exec_block cf rest) as K eqn:HK;
+    change c with nfu_cond;
+    change (BCons (SAugVar xa AugAdd e) (BCons (SAugVar xc AugAdd (EInt 1)) BNil))
+      with (nfu_body_at xa xc);
+    rewrite (nfu_loop_gen n k xa xc ltac:(lia) ltac:(lia) ltac:(lia)
+               (scan_fuel s) (loop_fuel (cc s)) s en [] 0);
+    [| apply scan_fuel_cc; exact HP | exact HP | reflexivity | reflexivity | reflexivity | exact Hno]
+  end.
+  pose proof (scan_Pre k (scan_fuel s) s [] 0 HP) as HP1.
+  destruct (scan (scan_fuel s) s k [] 0) as [[[s1 oe] acc] cnt]. cbn [fst snd seq] in *.
+  destruct oe as [e|]; [reflexivity|]. subst K.
+  repeat first
+  [ reflexivity
+  | progress cbn [seq]
+  | progress ev
+  | match goal with
+    | |- context [call _ gen_cls (CMeth M_backward) [VInt ?c] (cc s1)] =>
+      rewrite gen_backward_ok by exact HP1; unfold done;
+      let Hsh := fresh "Hsh" in pose proof (backward_shape s1 c) as Hsh;
+      let s2 := fresh "s" in let o := fresh "o" in
+      destruct (backward s1 c) as [s2 o]; cbn [fst snd] in *;
+      destruct o; try contradiction
+    | |- context [list_eqb ?l ?a] => destruct (list_eqb l a)
+    end ].
+Qed.
+
 Lemma gen_forward_until_gen n s k : Pre s ->
   scan_exn (scan (scan_fuel (fst (peek_int s 0))) (fst (peek_int s 0)) k [] 0) <> Some OutOfFuel ->
   call (S (S (S (S (S (S n)))))) gen_cls (CMeth M_forward_until) [VFn (FCond k)] (cc s)
   = done (forward_until s k).
 Proof.
-  intros HP Hno. enter. rewrite gen_peek_default by exact HP.
+  intros HP Hno. rewrite call_S. unfold call_body.
+  cbn [gen_cls c_meth gen_meth gen_forward_until m_params m_body bind_params option_map blk].
   unfold forward_until, done.
-  pose proof (peek_int_shape s 0) as Hsh. pose proof (peek_int_Pre s 0 HP) as HP0.
-  destruct (peek_int s 0) as [s0 first]. cbn [fst snd] in *.
-  assert (Hloop : forall fv,
-    finish (exec_block (call (S (S (S (S (S n))))) gen_cls)
-      (BCons (SWhile fu_cond fu_body) (BCons (SReturn (EVar 3)) BNil))
-      [Some (VFn (FCond k)); Some (VBool true); Some fv; Some (VStr [])] (cc s0))
-    = ODone (cc (fst (let '(s1, oe, acc, _) := scan (scan_fuel s0) s0 k [] 0 in
-                      match oe with Some e => (s1, OExc e) | None => (s1, OItems acc) end)))
-            (of_out (snd (let '(s1, oe, acc, _) := scan (scan_fuel s0) s0 k [] 0 in
-                      match oe with Some e => (s1, OExc e) | None => (s1, OItems acc) end)))).
-  { intros fv. cbn [exec_block exec_stmt].
-    rewrite (fu_loop n k fv (scan_fuel s0) _ s0 [] 0); [| apply scan_fuel_cc; exact HP0 | exact HP0 | exact Hno].
-    destruct (scan (scan_fuel s0) s0 k [] 0) as [[[s1 oe] acc] cnt].
-    destruct oe as [e|]; reflexivity. }
-  destruct first as [x| |l|b|z|e]; try contradiction; ev.
-  - rewrite d_init_cc, d_empty_cc. unfold fi, fe. rewrite empty_lam. ev.
-    rewrite init_lam_str by (left; reflexivity). ev. apply Hloop.
-  - rewrite d_init_cc, d_empty_cc. unfold fi, fe. rewrite empty_lam. ev.
-    rewrite init_lam_str by (right; eexists; reflexivity). ev. apply Hloop.
-  - reflexivity.
+  scan_prefix.
+  all: match goal with
+  | HP0 : Pre ?s0 |-
+    context [exec_block ?cf (BCons (SWhile ?c (BCons (SAugVar ?xa AugAdd ?e) BNil)) ?rest) ?en (cc ?s0)] =>
+    rewrite (exec_block_cons cf (SWhile c (BCons (SAugVar xa AugAdd e) BNil)) rest en (cc s0)),
+      exec_while;
+    remember (exec_block cf rest) as K eqn:HK;
+    change c with fu_cond;
+    change (BCons (SAugVar xa AugAdd e) BNil) with (fu_body_at xa);
+    rewrite (fu_loop_gen n k xa ltac:(lia) (scan_fuel s0) (loop_fuel (cc s0)) s0 en [] 0);
+    [| apply scan_fuel_cc; exact HP0 | exact HP0 | reflexivity | reflexivity | reflexivity | exact Hno];
+    destruct (scan (scan_fuel s0) s0 k [] 0) as [[[s1 oe] acc] cnt]; cbn [fst snd seq] in *;
+    destruct oe as [e0|]; [reflexivity|]; subst K; repeat first [reflexivity | progress cbn [seq] | progress ev]
+  end.
 Qed.
 (* the hand-written scan never runs out of fuel from a state satisfying Pre *)
 Lemma has_next_1_Pre L q i : 0 <= i -> (q <= length L)%nat ->
@@ -1110,6 +1367,11 @@ Lemma run_init l :
   run_meth gen_cls M_init [VIterable l] blank = ODone (cc (init_state l)) (RVal VNone).
 Proof. apply (gen_init_ok 7). Qed.
 
+Lemma run_init_buffer s : Pre s ->
+  run_meth gen_cls M_init [buf_arg s] blank
+  = ODone (cc (init_state (skipn (Z.to_nat (cursor s)) (items s)))) (RVal VNone).
+Proof. apply (gen_init_buffer_ok 7). Qed.
+
 (* ====================================================================== *)
 (* Non-vacuity                                                             *)
 (* ====================================================================== *)
@@ -1120,6 +1382,13 @@ Example ex_Pre : Pre ex_state.
 Proof. unfold Pre, ex_state. cbn. lia. Qed.
 Example ex_wf : wf ex_state.
 Proof. unfold wf, ex_state. cbn. lia. Qed.
+
+(* wrapping a buffer that has looked ahead: queue [97], source still holds
+   [98; 99; 98], cursor 2 -- the new buffer starts at 99 *)
+Example ex_init_of_buffer :
+  run_meth gen_cls M_init [buf_arg (mkS [97; 98; 99; 98] 1 2)] blank
+  = ODone (cc (init_state [99; 98])) (RVal VNone).
+Proof. vm_compute. reflexivity. Qed.
 
 Example ex_run_peek :
   run_meth gen_cls M_peek [VInt 1] (cc ex_state) = ODone (cc (mkS [97; 98; 99; 98] 4 2)) (RVal (VItem 98)).
